@@ -732,14 +732,16 @@ _CASE_TABLES = {}
 _UPPER = _mk_table(str.upper)
 _LOWER = _mk_table(str.lower)
 _COMP = None
+_COMP_IS_MIRROR = False
 
 
 def comp_table():
-    global _COMP
+    global _COMP, _COMP_IS_MIRROR
     if _COMP is None:
         import Bio.Seq
 
         _COMP = _mk_table(lambda ch: str(Bio.Seq.Seq(ch).complement()))
+        _COMP_IS_MIRROR = all(_COMP.get(k) == (3 - k % 4) + 4 * (k // 4) for k in range(8))
     return _COMP
 
 
@@ -760,6 +762,10 @@ def map_code(c, table, generic, hint=None):
             return c.base
         if table is _LOWER:
             return c.base + 4
+        if table is _COMP and _COMP_IS_MIRROR:
+            return mkletter(3 - c.base, c.case)
+    elif table is _COMP and _COMP_IS_MIRROR and hint is not None and all(0 <= k < 4 for k in hint):
+        return mkint(3 - c.e)  # A<->T, C<->G on the 0..3 coding: keeps letter terms linear
     e = c.e
     keys = [k for k in table if hint is None or k in hint]
     if not keys:
@@ -1134,7 +1140,15 @@ def supper_code(c, hint=None):
     return map_code(c, _UPPER, str.upper, hint)
 
 
-def scomp_code(c):
+def scomp_code(c, hint=None):
     import Bio.Seq
 
-    return map_code(c, comp_table(), lambda ch: str(Bio.Seq.Seq(ch).complement()))
+    return map_code(c, comp_table(), lambda ch: str(Bio.Seq.Seq(ch).complement()), hint)
+
+
+def rc_codes(x):
+    """reverse complement of sequence data of concrete length -> list of letter codes"""
+    d = sdata(x)
+    k = slen(d)
+    hint = d.hint if isinstance(d, SSeq) else None
+    return [scomp_code(sat(d, k - 1 - j), hint) for j in range(k)]
